@@ -220,9 +220,9 @@ struct Value {
 
         int64 = non_numeric ? 0 : atoll(v);
         if (int64 != 0 || !strcmp(v, "0")) {
-            // verify
-            char buf[vlen + 1];
-            snprintf(buf, vlen + 1, "%" PRId64, int64);
+            // verify (an int64 prints in at most 20 characters: no need for a token-sized buffer on the stack)
+            char buf[24];
+            snprintf(buf, sizeof(buf), "%" PRId64, int64);
             if (!strcmp(buf, v)) {
                 // verified; can it be a hexstring too?
                 if (!(vlen & 1)) {
